@@ -373,8 +373,58 @@ func (res *CheckResult) checkExpression(lit parser.ValueExpr, requiredType strin
 	case *parser.StringLiteral:
 		res.assertHasType(lit, requiredType, TypeString)
 	case *parser.BinaryInfix:
-		res.checkExpression(lit.Left, TypeAny)
-		res.checkExpression(lit.Right, TypeAny)
+		// "+" and "-" are defined on two numbers or on two monetaries,
+		// and the result has the same type as the operands
+		switch leftType := res.typeOf(lit.Left); leftType {
+		case TypeNumber, TypeMonetary:
+			res.checkExpression(lit.Left, leftType)
+			res.checkExpression(lit.Right, leftType)
+			res.assertHasType(lit, requiredType, leftType)
+
+		case "":
+			// the type of the left operand is not known (e.g. unbound variable)
+			res.checkExpression(lit.Left, TypeAny)
+			res.checkExpression(lit.Right, TypeAny)
+
+		default:
+			res.checkExpression(lit.Left, TypeAny)
+			res.checkExpression(lit.Right, TypeAny)
+			res.Diagnostics = append(res.Diagnostics, Diagnostic{
+				Range: lit.Left.GetRange(),
+				Kind: &TypeMismatch{
+					Expected: TypeNumber + "|" + TypeMonetary,
+					Got:      leftType,
+				},
+			})
+		}
+	}
+}
+
+// Returns the type of an expression, or "" when it is not known
+func (res *CheckResult) typeOf(lit parser.ValueExpr) string {
+	switch lit := lit.(type) {
+	case *parser.Variable:
+		decl, ok := res.declaredVars[lit.Name]
+		if !ok || decl.Type == nil || !isTypeAllowed(decl.Type.Name) {
+			return ""
+		}
+		return decl.Type.Name
+	case *parser.MonetaryLiteral:
+		return TypeMonetary
+	case *parser.AccountLiteral:
+		return TypeAccount
+	case *parser.RatioLiteral:
+		return TypePortion
+	case *parser.AssetLiteral:
+		return TypeAsset
+	case *parser.NumberLiteral:
+		return TypeNumber
+	case *parser.StringLiteral:
+		return TypeString
+	case *parser.BinaryInfix:
+		return res.typeOf(lit.Left)
+	default:
+		return ""
 	}
 }
 
